@@ -262,10 +262,13 @@ def run(ctx):
     # ---- R10.5
     import itertools
     tstm = ptab.get(ord("t"), [])
-    fdecl = [x for s_ in tstm for x in A.walk(s_) if x.get("kind") == "VarDecl" and A.kids(x) and A.strip_casts(A.kids(x)[-1]).get("kind") == "ConditionalOperator" and
-             any(A.string_literal(y) and "%Y" in (A.string_literal(y) or "") for y in A.walk(x) if y.get("kind") == "StringLiteral")]
-    ctx.require(len(fdecl) == 1, "R10.5: the strftime format selection was not found in the printer's case 't'")
-    expr = A.kids(fdecl[0])[-1]
+    # by role: the format handed to strftime in the time-tag case, however it is computed (ternary, helper function, ...)
+    sft = [c for s_ in tstm for c in A.calls_in(s_) if A.callee_name(c) == "strftime"]
+    ctx.require(len(sft) == 1, "R10.5: the strftime call of the printer's case 't' was not found (%d)" % len(sft))
+    expr = A.kids(sft[0])[3]
+    fdecl = [sft[0]]
+    frac_ids = {d_["id"] for s_ in tstm for d_ in A.walk(s_) if d_.get("kind") == "VarDecl" and any(A.callee_name(k_) == "rtosc_secfracs_from_arg_val" for k_ in A.calls_in(d_))}
+    ctx.require(len(frac_ids) == 1, "R10.5: the second-fraction variable of the time-tag case was not found")
     bad = []
     ncase = 0
     for hour, minute, sec, frac in itertools.product((0, 7), repeat=4):
@@ -275,13 +278,26 @@ def run(ctx):
                 return A.string_literal(n)
             if k == "MemberExpr" and n.get("name") in ("tm_hour", "tm_min", "tm_sec"):
                 return {"tm_hour": hour, "tm_min": minute, "tm_sec": sec}[n.get("name")]
-            if k == "DeclRefExpr" and (n.get("referencedDecl") or {}).get("name") == "secfracs":
+            if k == "DeclRefExpr" and (n.get("referencedDecl") or {}).get("id") in frac_ids:
                 return frac
+            if k == "DeclRefExpr" and (n.get("referencedDecl") or {}).get("kind") == "VarDecl" and n["referencedDecl"]["id"] not in ev.env:
+                d_ = u.by_id.get(n["referencedDecl"]["id"])
+                if d_ is not None and A.kids(d_):
+                    if any(A.callee_name(k_) in ("rtosc_params_from_arg_val", "localtime", "gmtime") for k_ in A.calls_in(d_)):
+                        return 4242                      # the broken-down time: only its members matter
+                    return ev.ev(A.kids(d_)[-1])
             if k == "ImplicitCastExpr" and n.get("castKind") == "ArrayToPointerDecay":
                 return ev.ev(A.kids(n)[0])
             return NotImplemented
+
+        def call10(nm, vals, n):
+            fns_ = [f_ for f_ in u.functions.get(nm, []) if u.body(f_) is not None]
+            if len(fns_) == 1:
+                return ev10.call_function(u, fns_[0], vals)
+            raise FD.Unknown("call to %s" % nm, n)
         try:
-            f = FD.Eval(node_hook=hook).ev(expr)
+            ev10 = FD.Eval(node_hook=hook, call=call10)
+            f = ev10.ev(expr)
         except FD.Unknown as e:
             raise AnalysisBroken("R10.5: format selection not evaluable: %s" % e)
         ncase += 1
